@@ -118,7 +118,7 @@ Print Assumptions C03_first_eligible_block.
 
 (* The full acceptance statement (kept visible; it is FALSE of the faithful model, see C03_accept_refuted). *)
 Definition C03_accept_full : Prop := forall s st a op x n tx,
-  inv_all s -> mem op (operators s) = true -> hook_panics s op = false -> wf_op (Undelegate st a op x n tx) = true ->
+  inv_all s -> mem op (operators s) = true -> wf_op (Undelegate st a op x n tx) = true ->
   fresh_op s (Undelegate st a op x n tx) = true -> 0 < x -> x <= position_d (dump_of s) st a op ->
   snd (step s (Undelegate st a op x n tx)) = ROk.
 
